@@ -21,6 +21,7 @@ var currentType string
 var mapFields = make(map[string]string)
 var localVars = make(map[string]string)
 var formalParameters = make(map[string]string)
+var localVarsOfOuterBlocks []map[string]string
 
 var currentClzExtend = ""
 var currentMethod core_domain.CodeFunction
@@ -50,6 +51,7 @@ func NewJavaFullListener(nodes map[string]core_domain.CodeDataStruct, file strin
 	mapFields = make(map[string]string)
 	localVars = make(map[string]string)
 	formalParameters = make(map[string]string)
+	localVarsOfOuterBlocks = nil
 	currentType = ""
 	hasEnterClass = false
 	currentNode = core_domain.NewDataStruct()
@@ -251,6 +253,23 @@ func BuildTypeCtxByIndex(typeType *parser.TypeTypeContext, typeCtx *parser.Class
 		typeCtx = x
 	}
 	return typeCtx
+}
+
+// a local variable is known until the end of the block that declares it
+func (s *JavaFullListener) EnterBlock(ctx *parser.BlockContext) {
+	outer := make(map[string]string, len(localVars))
+	for name, typ := range localVars {
+		outer[name] = typ
+	}
+	localVarsOfOuterBlocks = append(localVarsOfOuterBlocks, outer)
+}
+
+func (s *JavaFullListener) ExitBlock(ctx *parser.BlockContext) {
+	if len(localVarsOfOuterBlocks) == 0 {
+		return
+	}
+	localVars = localVarsOfOuterBlocks[len(localVarsOfOuterBlocks)-1]
+	localVarsOfOuterBlocks = localVarsOfOuterBlocks[:len(localVarsOfOuterBlocks)-1]
 }
 
 func (s *JavaFullListener) EnterLocalVariableDeclaration(ctx *parser.LocalVariableDeclarationContext) {
